@@ -34,7 +34,7 @@ ClmBases == << << [name |-> <<116,49>>, data |-> <<11,12,13,14,15>>], [name |-> 
 \* two call scripts per image: members in ascending and in descending order, so that a refused call is followed by calls on
 \* other (intact) members in both directions
 CallsDir(n, up) == << [call |-> "GetCount", i |-> 0] >> \o Flatten([j \in 1..(n + 2) |-> LET i == IF up THEN j - 1 ELSE n + 2 - j IN << [call |-> "GetName", i |-> i], [call |-> "GetSize", i |-> i],
-                 [call |-> "OpenStream", i |-> i], [call |-> "GetName", i |-> i], [call |-> "Extract", i |-> i], [call |-> "SeekBeyond", i |-> i], [call |-> "OpenStream", i |-> i] >>])
+                 [call |-> "OpenStream", i |-> i], [call |-> "GetName", i |-> i], [call |-> "Extract", i |-> i], [call |-> "SeekBeyond", i |-> i], [call |-> "OpenStreamAfterFailedRead", i |-> i], [call |-> "OpenStream", i |-> i] >>])
 EmitClm(id, img, n) == \A up \in BOOLEAN : PrintT("S|" \o ToJson([id |-> <<id, up>>, steps |-> << [op |-> "robust_clm", image |-> img, calls |-> CallsDir(n, up)] >>]))
 \* ---- WAV images ---------------------------------------------------------------------------------------
 \* chunk list: <<tag, payload>>; RIFF size is computed, every chunk header is a fault target
